@@ -81,6 +81,10 @@ def _epsfac(*groups):
     return fac
 
 
+# set by workloads whose recorded program itself assigns into its argument (evaluating it then does what the program does)
+PROGRAM_WRITES_INPUT = [False]
+
+
 class ImmutabilityMonitor(Monitor):
     """C14(a): no non-in-place call modifies the coefficient data of its arguments; in-place operators modify only
     the left operand; pb_* only their `out=` accumulators; tracer calls leave the user's objects untouched."""
@@ -103,7 +107,7 @@ class ImmutabilityMonitor(Monitor):
         return ok
 
     def _check(self, ev, raised):
-        if ev.kind == 'tracer' and ev.name in ('pushforward', 'function') and getattr(self.ctx, 'program_writes_input', False):
+        if ev.kind == 'tracer' and ev.name in ('pushforward', 'function') and PROGRAM_WRITES_INPUT[0]:
             return            # the recorded program itself assigns into its argument: evaluating it does what the program does
         allowed = self._allowed(ev)
         ncmp = 0
